@@ -162,6 +162,29 @@ def check_network(tw, rxns, fails, tags):
     sm = ST.summary(H)
     if (sm.n_species, sm.n_reactions, sm.rank, sm.dim_left_kernel, sm.dim_right_kernel) != (n, m, rank, n - rank, m - rank):
         bad("summary", "summary %s differs from exact (%d, %d, %d)" % (sm, n, m, rank), "summary")
+    # the matrices follow the network through edits (the same object is queried before and after)
+    for victim in species[:2]:
+        H2 = gen.build_crn(rxns)
+        H2.incidence_matrix(sparse=False)
+        ST.build_S(H2)
+        try:
+            H2.remove_species(victim)
+        except Exception:
+            continue
+        sp_l = sorted(H2.species)
+        ed_l = sorted(H2.edges.keys())
+        E2 = exact_S([(dict(H2.edges[e].reactants.items()), dict(H2.edges[e].products.items())) for e in ed_l], sp_l)
+        a, b, dense2 = H2.incidence_matrix(sparse=False)
+        _, _, sparse2 = H2.incidence_matrix(sparse=True)
+        ok = list(a) == sp_l and list(b) == ed_l and dense2.shape == (len(sp_l), len(ed_l)) and all(
+            Fraction(int(dense2[i, j])) == E2[i][j] and sparse2.get((sp_l[i], ed_l[j]), 0) == E2[i][j] for i in range(len(sp_l)) for j in range(len(ed_l)))
+        if not ok:
+            bad("CRNHyperGraph.incidence_matrix", "after remove_species(%r) the incidence matrix differs from produced-minus-consumed" % victim, "incidence-after-edit")
+        if ed_l and sp_l:
+            sp4, rx4, S4 = ST.build_S(H2)
+            got4 = sorted(tuple(Fraction(float(S4[i, j])).limit_denominator(1000) for i in range(S4.shape[0])) for j in range(S4.shape[1]))
+            if list(sp4) != sp_l or got4 != sorted(tuple(E2[i][j] for i in range(len(sp_l))) for j in range(len(ed_l))):
+                bad("build_S", "after remove_species(%r) the stoichiometric matrix differs from produced-minus-consumed" % victim, "matrix-after-edit")
     return 1 if (n - rank >= 2 or m - rank >= 1) else 0
 
 
